@@ -36,6 +36,9 @@ pub enum Op {
 	/// an async spawn hook that suspends for `delay_ms` (virtual) before the spawn: starting takes time, which makes
 	/// "the ticket resolved before its control had run" observable. Scenarios with it are judged by invariants only.
 	SetAsyncHook(u64),
+	/// `unset_spawn_hook`; generated only right before a `SetHook` at the very start of a scenario (a spawn without the
+	/// harness' hook would escape the simulated child)
+	UnsetHook,
 }
 
 impl Op {
@@ -63,6 +66,7 @@ impl Op {
 			Op::MarkerPrio(_) => "marker_urgent",
 			Op::Continue => "continue_try_graceful_restart",
 			Op::SetAsyncHook(_) => "set_spawn_async_hook",
+			Op::UnsetHook => "unset_spawn_hook",
 		}
 	}
 
@@ -115,6 +119,7 @@ impl Op {
 			"marker" => Op::MarkerPrio(v["prio"].as_u64().unwrap_or(0) as u8),
 			"continue_try_graceful_restart" => Op::Continue,
 			"set_spawn_async_hook" => Op::SetAsyncHook(v["delay_ms"].as_u64().unwrap_or(3)),
+			"unset_spawn_hook" => Op::UnsetHook,
 			_ => return None,
 		})
 	}
